@@ -13,7 +13,7 @@ mutual
   def Act.overrideNone : Act → Bool
     | .finish _ => false
     | .append _ _ => false
-    | .appendC _ _ _ => false
+    | .appendC _ _ _ _ => false
     | .brk _ _ => false
     | .cond bs => bs.overrideNone
     | _ => true
@@ -29,7 +29,7 @@ mutual
   /-- the action templates contain `goto repeatswitch` (an out-of-space redirect) -/
   def Act.hasRedirect : Act → Bool
     | .append _ _ => true
-    | .appendC _ _ _ => true
+    | .appendC _ _ _ _ => true
     | .brk _ after => after.hasRedirect
     | .cond bs => bs.hasRedirect
     | _ => false
